@@ -166,6 +166,8 @@ def _len(I, a, k):
     from .interp import SIter
     if isinstance(x, SIter):
         return wrap(A.T(x.length))
+    if hasattr(x, "length") and getattr(x, "_pyvc_ok", False):
+        return x.length()
     if isinstance(x, (list, tuple, dict, str, set)):
         return len(x)
     return NotImplemented
